@@ -71,7 +71,7 @@ let () =
           let rest = String.sub t 1 (String.length t - 1) in
           let arg () = n_of_int (int_of_string rest) in
           let apply o =
-            let (s', ok) = ostep true content isman fuel !st o in
+            let (s', ok) = ostep true true content isman fuel !st o in
             st := s'; if not ok then fuel_out := true in
           match t.[0] with
           | 'P' -> apply (PPush (arg ()))
